@@ -21,6 +21,16 @@ import numpy as np
 from cirq import linalg
 
 
+def digits_dtype(dimensions: Sequence[int], default: Any = np.uint8) -> Any:
+    """The dtype for arrays of measured digits of qudits with the given dimensions.
+
+    This is `default` (an 8 bit type) whenever every digit fits into it, and int64 for
+    qudits with more levels than that.
+    """
+    largest_digit = max(dimensions, default=2) - 1
+    return default if largest_digit <= np.iinfo(default).max else np.int64
+
+
 def state_probabilities_by_indices(
     state_probability: np.ndarray, indices: Sequence[int], qid_shape: tuple[int, ...]
 ) -> np.ndarray:
